@@ -43,8 +43,6 @@ PARAMS = {
 SKIP = {
     'GenericNDimFinDiff': 'abstract base: eval_f not implemented', 'polynomial_testequation': 'no solve_system semantics (polynomial in t)',
     'polynomial_testequation_IMEX': 'no solve_system semantics (polynomial in t)', 'ExactDiscontinuousTestODE': 'solve_system returns the exact solution by design, not the implicit equation',
-    'fermi_pasta_ulam_tsingou': 'second-order particle problem: no solve_system', 'full_solar_system': 'second-order particle problem: no solve_system',
-    'henon_heiles': 'second-order particle problem: no solve_system', 'outer_solar_system': 'second-order particle problem: no solve_system', 'harmonic_oscillator': 'second-order particle problem: no solve_system',
 }
 SPECTRAL = ('Heat1DChebychev', 'Heat1DUltraspherical', 'Heat2DUltraspherical', 'Burgers1D', 'Burgers2D')
 LINEAR = {'testequation0d', 'test_equation_IMEX', 'heatNd_forced', 'heatNd_unforced', 'advectionNd', 'piline', 'buck_converter', 'acoustic_1d_imex', 'advectiondiffusion1d_imex', 'advectiondiffusion1d_implicit'}
@@ -289,6 +287,47 @@ def variants(name, cls):
     return out
 
 
+PARTICLES = ('fermi_pasta_ulam_tsingou', 'full_solar_system', 'harmonic_oscillator', 'henon_heiles', 'outer_solar_system', 'penningtrap')
+
+
+def check_particles(name, cls, rng):
+    """second-order (particle) problem classes have no implicit solve; their part of the contract: eval_f (and build_f / boris_solver where offered)
+    returns a fresh deterministic result and never modifies the particle data handed in; u_exact(0) is reproducible"""
+    fails, cases = [], 0
+    kw = dict(omega_B=25.0, omega_E=4.9, u0=np.array([[10, 0, 0], [100, 0, 100], [1], [1]], dtype=object), nparts=1, sig=0.1) if name == 'penningtrap' else {}
+    try:
+        P = cls(**kw)
+    except Exception as e:
+        return [], 0, f'cannot instantiate: {type(e).__name__}: {str(e)[:80]}'
+
+    def snap(u):
+        return [np.array(getattr(u, a)) for a in ('pos', 'vel', 'q', 'm') if hasattr(u, a)]
+
+    def parts(f):
+        return [np.array(getattr(f, a)) for a in ('elec', 'magn') if hasattr(f, a)] or [np.array(f)]
+
+    u = P.u_exact(0.0)
+    u2 = P.u_exact(0.0)
+    cases += 1
+    if not (all(np.array_equal(a, b) for a, b in zip(snap(u), snap(u2))) and u is not u2):
+        fails.append('u_exact(0) not reproducible / not a fresh object')
+    u.pos[...] = u.pos + 0.01 * rng.randn(*u.pos.shape)
+    s0 = snap(u)
+    for t in (0.0, 0.37):
+        cases += 1
+        f1, f2 = P.eval_f(u, t), P.eval_f(u, t)
+        if not all(np.array_equal(a, b) for a, b in zip(snap(u), s0)):
+            fails.append(f'eval_f(t={t}) modified its argument')
+        if not (f1 is not f2 and all(np.array_equal(a, b) for a, b in zip(parts(f1), parts(f2)))):
+            fails.append(f'eval_f(t={t}) result is not a fresh deterministic object')
+        if hasattr(P, 'build_f'):
+            g0 = parts(f1)
+            b1, b2 = P.build_f(f1, u, t), P.build_f(f1, u, t)
+            if not (np.array_equal(np.asarray(b1), np.asarray(b2)) and all(np.array_equal(a, b) for a, b in zip(parts(f1), g0)) and all(np.array_equal(a, b) for a, b in zip(snap(u), s0))):
+                fails.append(f'build_f(t={t}) is not deterministic or modified its arguments')
+    return fails, cases, None
+
+
 def check_spectral(name, cls, rng):
     """spectral (tau) classes: solve_system(rhs, dt) must return u with  BC(M + dt*L) u = BC(M rhs)  -- the operator rows on the interior
     modes, the boundary / constraint rows instead of the highest modes -- for every solver type, whatever was solved before (the classes
@@ -355,6 +394,18 @@ def bounded_problem_contracts(tier, seed):
                 obs.append(dict(name=f'bounded:{name}:solve_defect', status='proved' if not fails else 'refuted', backend='runtime-contract', seconds=0.0, kind='bounded', size=0,
                                 model=dict(first=fails[:5]) if fails else None, reason='', path=0, counted=False))
                 spectral_done.append(name)
+            continue
+        if name in PARTICLES:
+            try:
+                fails, cases, why = check_particles(name, cls, rng)
+            except Exception as e:
+                fails, cases, why = [], 0, f'harness error {type(e).__name__}: {str(e)[:80]}'
+            total += cases
+            if why:
+                uncovered.append(f'{name}: {why}')
+            else:
+                obs.append(dict(name=f'bounded:{name}:arguments_and_results', status='proved' if not fails else 'refuted', backend='runtime-contract', seconds=0.0, kind='bounded', size=0,
+                                model=dict(first=fails[:5]) if fails else None, reason='', path=0, counted=False))
             continue
         if name in SKIP:
             uncovered.append(f'{name}: {SKIP[name]}')
